@@ -229,8 +229,11 @@ def layout_jobs(tier, want_valid, want_invalid):
             for site in range(24 * scale):
                 for d in range(9):
                     job(d, viol=v, vsite=site)
+            for site in range(12 * scale):                            # ... with restriction lists and condition bodies spread over several lines
+                for d in range(3):
+                    job(d, viol=v, vsite=site, style=dict(BASE_STYLE, multi=True))
             for _ in range(80 * scale):                               # the same violations under random layouts (comments / blank lines around the site)
-                job(rng.randrange(0, 500), viol=v, vsite=rng.randrange(0, 500), style=dict(rstyle(), multi=False))
+                job(rng.randrange(0, 500), viol=v, vsite=rng.randrange(0, 500), style=rstyle())
     return jobs
 
 
